@@ -97,7 +97,7 @@ Step1 ==
               Same(Check(e.fd \in DOMAIN own, "PollOnlyOwnedFd", <<e.site, e.fd, Get(dying, e.fd, "none")>>, viols))
          \* ---- close: exactly once, by the owner
          [] e.ev = "Sys" /\ e.site = "el.close" -> Close(e.fd, Owner(e.h), "el.close")
-         [] e.ev = "Sys" /\ e.site \in {"el.regclose", "acc.close"} -> Close(e.fd, <<"accepted", e.fd>>, e.site)
+         [] e.ev = "Sys" /\ e.site \in {"el.regclose", "acc.close", "el.dupclose"} -> Close(e.fd, <<"accepted", e.fd>>, e.site)
          [] e.ev = "Sys" /\ e.site = "ln.close" -> Close(e.fd, <<"ln", e.fd>>, "ln.close")
          [] e.ev = "Sys" /\ e.site = "p.close" ->
               LET o == <<"p", e.fd>>
@@ -133,6 +133,8 @@ Step1 ==
                   v1 == Check(DOMAIN own \ pendingReg = {} /\ DOMAIN dying = {}, "NoLeakAtStop", <<DOMAIN own \ pendingReg, DOMAIN dying>>, viols)
                   v2 == Check(pendingReg = {}, "NoLeakAtStop_PendingRegister", pendingReg, v1)
               IN Same(v2)
+         \* a Register / Enroll / Dial that answered with an error has closed what it had created (the engine still runs)
+         [] e.ev = "RegLeak" -> Same(Check(e.n = 0, "FailedRegisterLeavesNothing", <<e.api, e.n, e.what>>, viols))
          [] e.ev = "ProcFd" ->
               LET pendingReg == {fd \in DOMAIN own : own[fd][1] = "accepted"} IN
               Same(Check(e.leaked <= Cardinality(pendingReg) /\ e.sockfiles = 0, "NoLeakAtStop",
